@@ -64,15 +64,21 @@ def build_cards(kind, cards, pooled=("P", "Q")):
             votes[CID] = dict(cont[cc])
         if ph:
             votes = {CID: {}} if cc == "blank" else {}
-        cvrs.append(CVR(id=f"card{i}", votes=votes, phantom=ph, tally_pool=("P" if p == "Pu" else p), pool=(p in pooled), sample_num=i + 1))
+        if votes:
+            cvrs.append(CVR(id=f"card{i}", votes=votes, phantom=ph, tally_pool=("P" if p == "Pu" else p), pool=(p in pooled), sample_num=i + 1))
+        else:  # a record without any contest is built the short way: no votes argument (the constructor's own default)
+            cvrs.append(CVR(id=f"card{i}", phantom=ph, tally_pool=("P" if p == "Pu" else p), pool=(p in pooled), sample_num=i + 1))
         cvrs[-1].sampled = True  # every card of a sample carries the flag consistent_sampling leaves on it (whichever contest it was drawn for)
         if mc == "unfindable":
-            mvrs.append(CVR(id=f"card{i}", votes={}, phantom=True))
+            mvrs.append(CVR(id=f"card{i}", phantom=True))  # likewise without a votes argument
         else:
             mv = {"other": {"X": True}}
             if cont[mc] is not None:
                 mv[CID] = dict(cont[mc])
-            mvrs.append(CVR(id=f"card{i}", votes=mv, phantom=False))
+            if cont[mc] is None and i % 2 == 1:  # a manual record showing no contest at all, built without a votes argument
+                mvrs.append(CVR(id=f"card{i}", phantom=False))
+            else:
+                mvrs.append(CVR(id=f"card{i}", votes=mv, phantom=False))
     return cvrs, mvrs
 
 
